@@ -5,6 +5,7 @@ import (
 	"fmt"
 	"io"
 	"os"
+	"strings"
 
 	"github.com/antlr4-go/antlr/v4"
 
@@ -48,13 +49,58 @@ func FromReader(reader io.Reader) (*Dialogue, error) {
 	}
 	input := antlr.NewInputStream(string(scriptData))
 	var (
-		lexer    = parser.NewYarnSpinnerLexer(input)
-		stream   = antlr.NewCommonTokenStream(lexer, antlr.LexerDefaultTokenChannel)
-		p        = parser.NewYarnSpinnerParser(stream)
-		listener = &parserListener{}
+		lexer         = parser.NewYarnSpinnerLexer(input)
+		stream        = antlr.NewCommonTokenStream(lexer, antlr.LexerDefaultTokenChannel)
+		p             = parser.NewYarnSpinnerParser(stream)
+		listener      = &parserListener{}
+		errorListener = &syntaxErrorListener{}
 	)
 
-	antlr.ParseTreeWalkerDefault.Walk(listener, p.Dialogue())
+	lexer.RemoveErrorListeners()
+	lexer.AddErrorListener(errorListener)
+	p.RemoveErrorListeners()
+	p.AddErrorListener(errorListener)
+
+	parseTree := p.Dialogue()
+	if stream.LA(1) != antlr.TokenEOF {
+		errorListener.addError(fmt.Sprintf("unexpected content after the last node (token %d)", stream.Index()))
+	}
+	if err := errorListener.err(); err != nil {
+		return nil, err
+	}
+
+	antlr.ParseTreeWalkerDefault.Walk(listener, parseTree)
 
 	return listener.dialogue, nil
+}
+
+// syntaxErrorListener collects the syntax errors reported by the lexer and the parser,
+// so that a script that isn't valid is refused instead of being loaded as some other script.
+type syntaxErrorListener struct {
+	*antlr.DefaultErrorListener
+	messages []string
+}
+
+const maxReportedSyntaxErrors = 10
+
+func (l *syntaxErrorListener) addError(message string) {
+	l.messages = append(l.messages, message)
+}
+
+// SyntaxError is called by the lexer and the parser each time they encounter a syntax error.
+func (l *syntaxErrorListener) SyntaxError(_ antlr.Recognizer, _ interface{}, line, column int, msg string, _ antlr.RecognitionException) {
+	l.addError(fmt.Sprintf("line %d:%d %s", line, column, msg))
+}
+
+func (l *syntaxErrorListener) err() error {
+	if len(l.messages) == 0 {
+		return nil
+	}
+	reported := l.messages
+	suffix := ""
+	if len(reported) > maxReportedSyntaxErrors {
+		suffix = fmt.Sprintf(" (and %d more)", len(reported)-maxReportedSyntaxErrors)
+		reported = reported[:maxReportedSyntaxErrors]
+	}
+	return fmt.Errorf("syntax error: %s%s", strings.Join(reported, "; "), suffix)
 }
